@@ -555,7 +555,16 @@ class Interp:
             items = list(self.iterate(v, f))
             star = [i for i, e in enumerate(t.elts) if isinstance(e, ast.Starred)]
             if star:
-                raise Unsupported("starred assignment")
+                if len(star) != 1 or len(items) < len(t.elts) - 1:
+                    raise PyRaise(SExc(ValueError, ("not enough values to unpack",)))
+                si = star[0]
+                n_after = len(t.elts) - si - 1
+                for e, x in zip(t.elts[:si], items[:si]):
+                    self.assign(e, x, f)
+                self.assign(t.elts[si].value, list(items[si: len(items) - n_after]), f)
+                for e, x in zip(t.elts[si + 1:], items[len(items) - n_after:]):
+                    self.assign(e, x, f)
+                return
             if len(items) != len(t.elts):
                 raise PyRaise(SExc(ValueError, ("unpack",)))
             for e, x in zip(t.elts, items):
